@@ -20,8 +20,9 @@
      F18 [c7ebc47] [zip_read_sp] / [tar_read_sp]: no separator for the archive root
      F19/F20 [3dfa233] [export_paths]: refuses absolute / '..' paths, duplicates after normalisation,
                        leaf/node check on the normalised paths; the copy still uses the raw strings
+     F21 [a52f9e0] [walk_files] / [export_zip_step]: a directory member for every empty directory;
+                   [zip_copy_one]: a member whose name ends with '/' becomes a directory
    STILL OPEN:
-     F21  zip archives get files only: empty directories are lost            : [export_zip_step]
      F20' a path that normalises to the export root ('.' or '') next to other jobs is accepted, and
           the copy uses the un-normalised string (os.makedirs on 'a/x/../y' creates 'a/x')
                                                                               : [export_paths], [fs_copytree_lex]
@@ -562,25 +563,31 @@ Definition export_dir_step (f : fs) (jd : job * str) : res (fs * option exn) :=
   | None => ROod
   end.
 
-(* os.walk(src) under a given listing order: (directory relative to src, file name, bytes) *)
-Fixpoint walk_files (fuel : nat) (asc : bool) (t : fs) (p : fpath) : list (fpath * str * str) :=
+(* copytree_to_zip: os.walk(src) under a given listing order.  One entry per file
+   (directory relative to src, Some (file name, bytes)) and - since a52f9e0 - one entry
+   (directory, None) for every directory that os.walk reports with no dirnames and no filenames *)
+Fixpoint walk_files (fuel : nat) (asc : bool) (t : fs) (p : fpath) : list (fpath * option (str * str)) :=
   match fuel with
   | O => []
   | Datatypes.S fuel' =>
       let names := ssort asc (fs_children p t) in
-      flat_map (fun n => match fs_get (p ++ [n]) t with Some (Some c) => [(p, n, c)] | _ => [] end) names
-      ++ flat_map (fun n => match fs_get (p ++ [n]) t with
-                            | Some None => walk_files fuel' asc t (p ++ [n]) | _ => [] end) names
+      let files := flat_map (fun n => match fs_get (p ++ [n]) t with Some (Some c) => [(p, Some (n, c))] | _ => [] end) names in
+      let dirs := filter (fun n => match fs_get (p ++ [n]) t with Some None => true | _ => false end) names in
+      files
+      ++ (match files, dirs with [], [] => [(p, None)] | _, _ => [] end)
+      ++ flat_map (fun n => walk_files fuel' asc t (p ++ [n])) dirs
   end.
 
-(* ZipInfo.from_file: normpath, then strip leading separators *)
+(* ZipInfo.from_file: normpath, then strip leading separators (a directory gets a trailing '/') *)
 Definition zip_arcname (s : str) : str := lstrip_slash (normpath s).
 
 Definition export_zip_step (asc : bool) (ms : list (str * str)) (jd : job * str) : res (list (str * str)) :=
   let '(j, dst) := jd in
-  ROk (ms ++ List.map (fun e => let '(d, n, c) := e in
-                         let rel := match d with [] => dot | _ => joinw slash d end in
-                         (zip_arcname (pjoin dst [rel; n]), c))
+  ROk (ms ++ List.map (fun e => let rel := match fst e with [] => dot | d => joinw slash d end in
+                         match snd e with
+                         | Some (n, c) => (zip_arcname (pjoin dst [rel; n]), c)
+                         | None => (zip_arcname (pjoin dst [rel]) ++ slash, [])     (* directory member *)
+                         end)
                       (walk_files (Datatypes.S (length (j_files j))) asc (j_files j) [])).
 
 (* TarFile.add(src, arcname, recursive=True): the directory, then sorted(os.listdir) *)
@@ -1026,6 +1033,8 @@ Definition zip_copy_one (ms : list (str * str)) (root : str) (id : str) (d : fs)
   do rel <- relpath name root;
   let jobpath := joinw slash (job_dir id) in
   let fn_dst := pjoin2 jobpath rel in
+  if ends_slash name then fs_makedirs_lex [] fn_dst d        (* directory member: _mkdir_p(fn_dst); continue *)
+  else
   do d1 <- fs_makedirs_lex [] (dirname fn_dst) d;
   match resolve [] fn_dst, zip_read ms name with
   | Some p, Some c => fs_write p c d1
